@@ -265,27 +265,37 @@ def _create_regex(pat: str) -> re.Pattern[str]:
 
     `\*` is translated as a literal `*`.
     """
-    regex = ""
+    # the literal parts of the pattern between its wildcards, as regexes
+    parts = [""]
     backslash_last = False
     for char in pat:
         if backslash_last and char == "*":
-            regex += re.escape(char)
+            parts[-1] += re.escape(char)
             backslash_last = False
             continue
         if backslash_last:
-            regex += re.escape("\\")
+            parts[-1] += re.escape("\\")
         backslash_last = False
         if char == "\\":
             backslash_last = True
             continue
         if char == "*":
-            regex += ".*"
+            parts.append("")
             continue
-        regex += re.escape(char)
+        parts[-1] += re.escape(char)
     if backslash_last:
         # a trailing backslash is a literal backslash
-        regex += re.escape("\\")
+        parts[-1] += re.escape("\\")
 
+    # A `.*` per wildcard makes a failed match try every way of sharing out the name
+    # between them (exponential time). Only the last wildcard is left to backtrack,
+    # the others match up to the first occurrence of the part that follows them:
+    # a backreference to a group in a lookahead is not entered again.
+    regex = parts[0]
+    for i, part in enumerate(parts[1:-1]):
+        regex += f"(?=(?P<g{i}>.*?{part}))(?P=g{i})"
+    if len(parts) > 1:
+        regex += ".*" + parts[-1]
     return re.compile(regex, re.DOTALL)
 
 
